@@ -482,6 +482,24 @@ func extraCases(r *lib.Rng, thorough bool) {
 		}
 		olds = append(olds, lsnSession(r, 2), lsnSession(r, 1))
 	}
+	// a request whose last k tag bytes are zero, with those bytes cut off (known finding:
+	// the decoder fills them in with zeros): kind srv.trunctag, judged by the strict clause
+	for _, l := range ls {
+		if l.lost {
+			continue
+		}
+		s := lsnSession(r, 1)
+		for _, k := range []int{1, 2} {
+			hdr := make([]byte, 48)
+			hdr[0] = 4<<3 | 3
+			copy(hdr[40:], r.Bytes(8))
+			q := zeroTail(r, s, 0, nil, k, hdr)
+			kind := l.kind
+			l.kind = "srv.trunctag"
+			l.srvCase(fmt.Sprintf("nt,mut,trunctag,cut%d", k), []*honest{q}, clone(q.b[:len(q.b)-k]), s)
+			l.kind = kind
+		}
+	}
 	// an idle server: more than the validity of a key (72 h) passes without anybody asking
 	// the provider; then a key exchange with the real NTS-KE server (the first call of
 	// Current() after the gap), whose cookies must open, and requests built from them and
@@ -688,7 +706,7 @@ func replayExtra(c [3]string) {
 		replayClient()
 		return
 	}
-	if c[0] != "srv.ip" && c[0] != "srv.scion" && c[0] != "srv.ctrhalf" && c[0] != "ke.real" {
+	if c[0] != "srv.ip" && c[0] != "srv.scion" && c[0] != "srv.ctrhalf" && c[0] != "srv.trunctag" && c[0] != "ke.real" {
 		return
 	}
 	// the listeners have their own fresh server key: a recorded datagram cannot be
